@@ -47,7 +47,7 @@ TIERS = {
                   pipe_sample=100,
                   pipe_batch=40, sql_extra=14, sql_batch=50,
                   flag_cfgs=['FlagsQ1', 'FlagsQ2'], flag_model_only=[],
-                  flag_sim=None, grow_sample=16, flag_pipe=80),
+                  flag_sim=None, grow_sample=12, flag_pipe=60),
     'thorough': dict(n=4, pipe_full=3, pipe_nested_full=2, pipe_allforms=2,
                      pipe_full_positions=('fact', 'record', 'user'),
                      pipe_sample=1200,
@@ -312,7 +312,7 @@ def Run(tier):
     run_cases = calm + grows[:cfg['grow_sample']]
     rng.shuffle(run_cases)
     funit = flagscheck.RunUnit(run_cases)
-    fpipe = flagscheck.RunPipe(grows[:4] + calm[:cfg['flag_pipe']])
+    fpipe = flagscheck.RunPipe(grows[:2] + calm[:cfg['flag_pipe']])
     _Log('flags: %d unit + %d pipeline records from %d cases (%d predicted '
          'to grow, %d of them replayed) (%.0fs)' % (
              len(funit), len(fpipe), len(cases), len(grows),
